@@ -152,9 +152,9 @@ static bool srv_alive(World *w, Cl *c) {
 static void loop(World *w) { w->ss->RunOnce(ola::TimeInterval(0, 0)); }
 
 // the server handles the head of client c's channel
-static string server_step(World *w, Cl *c) {
-  if (!srv_alive(w, c)) return "x";
-  loop(w);                                  // wake-up time := now, pending callbacks
+static string server_step(World *w, Cl *c, bool new_iteration = true) {
+  if (new_iteration) loop(w);               // wake-up time := now, pending callbacks
+  if (!srv_alive(w, c)) { if (!new_iteration) loop(w); return "x"; }
   string r;
   if (c->sd->DataRemaining() > 0) {
     c->sd->PerformRead();
@@ -290,7 +290,7 @@ static string run_case(const string &payload) {
     w.ev.clear();
     string tag;
     Cl *c = NULL;
-    if (f.size() > 1 && op != "K") c = w.cls[vh::num(f[1]) % ncl];
+    if (f.size() > 1 && op != "K" && op != "J") c = w.cls[vh::num(f[1]) % ncl];
     if (op == "S" || op == "T") {
       unsigned u = vh::num(f[2]);
       vector<uint8_t> d = vh::unhex(f[4]);
@@ -369,6 +369,11 @@ static string run_case(const string &payload) {
       server->RunHousekeeping();
     } else if (op == ">") {
       tag = server_step(&w, c);
+    } else if (op == "}") {
+      // dispatched in the same loop iteration as the previous descriptor: wake-up time not refreshed
+      tag = server_step(&w, c, false);
+    } else if (op == "J") {
+      g_now += vh::num(f[1]);                // the clock moves on while the loop is busy
     } else if (op == "<") {
       tag = client_step(&w, c);
     } else if (op == "*") {
